@@ -131,11 +131,17 @@ def reference_hash(event, version):
     return b64u(h) if version <= 3 else b64url_u(h)
 
 
+class Malformed(Exception):
+    pass
+
+
 def server_of_user(uid):
+    if not isinstance(uid, str) or not uid.startswith("@") or ":" not in uid:
+        raise Malformed("not a user ID: %r" % (uid,))
     return uid.split(":", 1)[1]
 
 
-def required_servers(event, version):
+def required_servers(event, version, strict_extra=False):
     """Servers whose signature the spec demands on a received PDU."""
     out = set()
     c = event.get("content") if isinstance(event.get("content"), dict) else {}
@@ -145,9 +151,14 @@ def required_servers(event, version):
         out.add(server_of_user(event["sender"]))
     if version <= 2:
         out.add(event["event_id"].split(":", 1)[1])
-    if version >= 8 and event.get("type") == "m.room.member" and c.get("membership") == "join" \
-            and "join_authorised_via_users_server" in c:
-        out.add(server_of_user(c["join_authorised_via_users_server"]))
+    if version >= 8 and "join_authorised_via_users_server" in c:
+        is_join = event.get("type") == "m.room.member" and c.get("membership") == "join"
+        # The spec demands the authorising server's signature for restricted *joins*. Whether
+        # the key on any other event makes it a "restricted join" is read differently by
+        # implementations (ruma: any event carrying the key); strict_extra=True follows the
+        # wider reading, and callers treat a disagreement between the readings as unspecified.
+        if is_join or strict_extra:
+            out.add(server_of_user(c["join_authorised_via_users_server"]))
     return out
 
 
@@ -173,9 +184,23 @@ def verify_event(keys, event, version, cache=None):
         return ("Err", "Err")
     msg = signing_bytes(red)
     strict = lenient = True
-    for server in required_servers(event, version):
+    try:
+        servers = required_servers(event, version)
+    except (Malformed, KeyError, IndexError, AttributeError):
+        return ("Err", "Err")
+    try:
+        servers_wide = required_servers(event, version, strict_extra=True)
+    except (Malformed, KeyError, IndexError, AttributeError):
+        servers_wide = None
+    for server in servers:
         s, l = check_entity(server, sigmap, keys, msg, cache)
         strict, lenient = strict and s, lenient and l
+    if servers_wide is None:
+        strict = False
+    else:
+        for server in servers_wide - servers:
+            s, _ = check_entity(server, sigmap, keys, msg, cache)
+            strict = strict and s
     try:
         calc = content_hash_bytes(event)
     except PduSize:
